@@ -51,6 +51,9 @@ R.contract(MF + "anonymize_files", trusted=True, record=True, raises={"ValueErro
                   "preserve_suffix_v4": Opt(INT), "preserve_suffix_v6": Opt(INT)},
            returns=NONE, modifies=["log"], ensures=["True"])
 
+from pyvc.spec import _sp_uf_fun as _uff  # noqa: E402
+SPEC_BUILTINS["SplitComma"] = _uff("py_split_44", SeqT(STR), STR)
+
 REJECT = ("len(argv.input) == 0 or len(argv.output) == 0 or (argv.undo and argv.anonymize_ips) or "
           "(argv.undo and argv.salt is None) or (argv.dump_ip_map is not None and not argv.anonymize_ips)")
 ANYOPT = ("(argv.as_numbers is not None) or (argv.sensitive_words is not None) or argv.anonymize_passwords or "
@@ -84,6 +87,19 @@ R.contract(M + "main",
                "seq(callarg('anonymize_files', 'preserve_networks')) == cat(%s))" % (ANYOPT, RFC1918),
                "implies((%s) and not argv.preserve_private_addresses and argv.preserve_addresses is None, "
                "callarg('anonymize_files', 'preserve_networks') is None)" % ANYOPT,
+               # ... in addition to the addresses listed with --preserve-addresses, which are always passed on
+               "implies((%s) and argv.preserve_private_addresses and argv.preserve_addresses is not None, "
+               "seq(callarg('anonymize_files', 'preserve_networks')) == SplitComma(argv.preserve_addresses) + cat(%s))"
+               % (ANYOPT, RFC1918),
+               "implies((%s) and not argv.preserve_private_addresses and argv.preserve_addresses is not None, "
+               "seq(callarg('anonymize_files', 'preserve_networks')) == SplitComma(argv.preserve_addresses))" % ANYOPT,
+           ] + [
+               # every comma-separated option reaches anonymize_files as the list of its items, or as None when absent
+               c for opt, par in (("as_numbers", "as_numbers"), ("reserved_words", "reserved_words"),
+                                  ("sensitive_words", "sensitive_words"), ("preserve_prefixes", "preserve_prefixes"))
+               for c in ("implies((%s) and argv.%s is None, callarg('anonymize_files', '%s') is None)" % (ANYOPT, opt, par),
+                         "implies((%s) and argv.%s is not None, seq(callarg('anonymize_files', '%s')) == "
+                         "SplitComma(argv.%s))" % (ANYOPT, opt, par, opt))
            ])
 
 R.contract(M + "host_bits",
